@@ -1,5 +1,6 @@
 mod adapter;
 mod cells;
+mod collide;
 mod craft;
 mod fuzz;
 mod fw;
